@@ -89,6 +89,14 @@ class PropV(V):
         self.setter = setter
 
 
+class NamedTupleClsV(V):
+    """a class made by collections.namedtuple(name, fields) at module level"""
+
+    def __init__(self, name, fields):
+        self.name = name
+        self.fields = list(fields)
+
+
 class TupleV(V):
     def __init__(self, items):
         self.items = list(items)
